@@ -315,7 +315,7 @@ def oracle(case, impl):
     return None
 
 
-def classify(case, impl, why):
+def classify(case, impl, why, _depth=0):
     import re
     t = case["text"]
     if re.search(r"(THEN|ELSE) *\d+ *:", t):
@@ -332,15 +332,20 @@ def classify(case, impl, why):
     if re.search(r"FOR [A-Z]+=.* TO ", t) and ("stopped" in why or "print" in why):
         # a loop whose range is empty at entry runs once in Color BASIC, never in BASIC09.  Counterfactual: were that the only
         # difference, the translated program would behave like the source on a BASIC09 whose FOR runs its body once
+        if _depth:
+            return None
         import ctlsem as C
         C.LENIENT.add("for-zero-trip")
         try:
             again = oracle(case, impl)
+            # what remains once the FOR difference is taken away may be another listed finding of this property (a program can
+            # hold several): then the case is explained by listed findings only
+            rest = None if again is None else classify(case, impl, again, 1)
         except Exception:  # noqa: BLE001
-            again = "error"
+            again, rest = "error", None
         finally:
             C.LENIENT.discard("for-zero-trip")
-        return "for-zero-trip" if again is None else None
+        return "for-zero-trip" if again is None or rest is not None else None
     return None
 
 
